@@ -125,10 +125,15 @@ def gen_val(rng) -> dict:
     r = rng.random()
     if r < 0.5:
         return {"t": "s", "v": gen_string(rng)}
-    if r < 0.65:
+    if r < 0.62:
         return {"t": "f", "v": gen_float(rng)}
-    if r < 0.75:
+    if r < 0.65:
+        # numpy scalars print like their Python value for float64 / int64
+        return {"t": "f", "v": gen_float(rng), "np": "float64"}
+    if r < 0.72:
         return {"t": "i", "v": rng.randrange(-1000, 100000)}
+    if r < 0.75:
+        return {"t": "i", "v": rng.randrange(-1000, 100000), "np": rng.choice(["int64", "int32"])}
     if r < 0.95:
         x = gen_float(rng)
         if abs(x) > 1e300:
@@ -501,6 +506,8 @@ class CifEngine(Engine):
         import scipp as sc
 
         t = v["t"]
+        if t in ("f", "i") and v.get("np"):
+            return np.dtype(v["np"]).type(v["v"])
         if t in ("s", "f", "i"):
             return v["v"]
         if t == "var":
